@@ -16,6 +16,9 @@ type FaultPlan struct {
 	Method string
 	K      int
 	Fired  bool
+	// "*mutclose": like "*mut", but when the K-th mutating call is Writer() the open succeeds and the
+	// stream's CLOSE fails (the flush of a backend that delivers on close)
+	pendingClose bool
 }
 
 var ErrInjected = errors.New("injected I/O failure")
@@ -28,14 +31,23 @@ func (p *FaultPlan) hit(method string) bool {
 	p.mu.Lock()
 	defer p.mu.Unlock()
 	p.Counts[method]++
-	if p.Method == "*mut" && (method == "Remove" || method == "RemoveAll" || method == "MkdirAll" || method == "Writer") {
+	if (p.Method == "*mut" || p.Method == "*mutclose") && (method == "Remove" || method == "RemoveAll" || method == "MkdirAll" || method == "Writer") {
 		// the K-th MUTATING call, whatever its method
 		p.Counts["*mut"]++
 		if p.Counts["*mut"] == p.K {
+			if p.Method == "*mutclose" && method == "Writer" {
+				p.pendingClose = true
+				return false
+			}
 			p.Fired = true
 			return true
 		}
 		return false
+	}
+	if p.Method == "*mutclose" && method == "WriterClose" && p.pendingClose {
+		p.pendingClose = false
+		p.Fired = true
+		return true
 	}
 	if method == p.Method && p.Counts[method] == p.K {
 		p.Fired = true
@@ -49,7 +61,7 @@ func (p *FaultPlan) Arm(method string, k int) {
 	p.mu.Lock()
 	defer p.mu.Unlock()
 	p.Counts = map[string]int{}
-	p.Method, p.K, p.Fired = method, k, false
+	p.Method, p.K, p.Fired, p.pendingClose = method, k, false, false
 }
 
 // Snapshot returns a copy of the call counters.
